@@ -117,9 +117,10 @@ NoCt == [u |-> GId, vmask |-> GId, vn |-> 0, vtam |-> "", vown |-> TRUE, craft |
 NoDeal == [k |-> 0, t |-> 0, n |-> 0]
 CtRec(c) == [k |-> c.k, scheme0 |-> c.scheme0, n |-> c.vn0, ops |-> c.ops]
 
+Mk(k, s, n, ra) == Seal(PkOf(k), s, n, ra) @@ [k |-> k, ops |-> <<>>, scheme0 |-> s, vn0 |-> n]
+
 Init == phase = "idle" /\ ct = NoCt /\ other = NoCt /\ deal = NoDeal /\ last = Quiet
 
-Mk(k, s, n, ra) == Seal(PkOf(k), s, n, ra) @@ [k |-> k, ops |-> <<>>, scheme0 |-> s, vn0 |-> n]
 
 \* the sender seals for key k; a second, independent ciphertext (same key, other length class)
 \* exists for the adversary to borrow components from
@@ -130,14 +131,20 @@ ASeal(k, s, n) ==
   /\ last' = [act |-> "Seal", k |-> k, scheme |-> s, n |-> n, expect |-> [valid |-> Valid(Mk(k, s, n, "r1")), len |-> FrameLen(n)]]
   /\ phase' = "made" /\ UNCHANGED deal
 
+\* the components that make up the ciphertext's bytes
+Bytes(c) == <<c.u, c.vmask, c.vn, c.vtam, c.vown, c.craft, c.w, c.scheme>>
+Touched(c) == Bytes(c) # Bytes(Mk(c.k, c.scheme0, c.vn0, "r1"))
+PayloadOps == {"VFlip", "VTrunc", "VExtend", "VSwap", "CraftFrame"}
 ATamper(o) ==
   /\ phase = "made" /\ Len(ct.ops) < Depth /\ "tamper" \in Modes
+  \* at most one move on the payload (two could cancel byte-wise, e.g. truncate then extend by the same byte)
+  /\ (o.op \in PayloadOps => (ct.vtam = "" /\ ct.vown /\ ~ct.craft))
   /\ ct' = [ApplyOp(ct, o, other) EXCEPT !.ops = Append(@, o)]
   /\ last' = Quiet /\ UNCHANGED <<phase, other, deal>>
 
 AIsValid ==
   /\ phase = "made"
-  /\ last' = [act |-> "IsValid", ct |-> CtRec(ct), expect |-> [valid |-> Valid(ct)], touched |-> (ct.ops # <<>>),
+  /\ last' = [act |-> "IsValid", ct |-> CtRec(ct), expect |-> [valid |-> Valid(ct)], touched |-> Touched(ct),
               idpt |-> (GIsId(ct.u) \/ GIsId(ct.w))]
   /\ phase' = "judged" /\ UNCHANGED <<ct, other, deal>>
 
@@ -145,7 +152,7 @@ ADecrypt(k2, via) ==          \* via = "sk" (ct.decrypt(sk)) or "key" (sk.sign_d
   /\ phase = "made"
   /\ LET out == IF via = "sk" THEN Decrypt(ct, SkOf(k2)) ELSE DecryptKey(ct, GScale(SkOf(k2), ct.u)) IN
        last' = [act |-> "Decrypt", ct |-> CtRec(ct), k2 |-> k2, via |-> via, expect |-> [out |-> out],
-                touched |-> (ct.ops # <<>>), rightkey |-> (k2 = ct.k), idpt |-> (GIsId(ct.u) \/ GIsId(ct.w))]
+                touched |-> Touched(ct), rightkey |-> (k2 = ct.k), idpt |-> (GIsId(ct.u) \/ GIsId(ct.w))]
   /\ phase' = "judged" /\ UNCHANGED <<ct, other, deal>>
 
 \* ---- threshold decryption (C12) ----
